@@ -397,26 +397,17 @@ func Run(p Plan) (v hk.Verdict) {
 				continue
 			}
 
-			tampered := &keystorage.KeyStorage{}
-			if err := tampered.UnmarshalBinary(cb); err != nil {
-				v.Label("tamper-rejected-at-load")
+			// the altered bytes are loaded into a fresh object, and re-loaded into an object that had the genuine
+			// storage loaded and a key retrieved before (a long-lived storage)
+			reused := &keystorage.KeyStorage{}
+			if err := reused.UnmarshalBinary(b); err == nil {
+				for id, ki := range slots {
+					_, _ = reused.GetMasterKey(id, keys[ki].priv)
 
-				continue
-			}
-
-			for sid2, ki := range slots {
-				if onlyTarget && sid2 != target {
-					continue
-				}
-
-				if got, err := tampered.GetMasterKey(sid2, keys[ki].priv); err == nil {
-					v.Failf("step %d (%s, target %s): after the alteration slot %s still returns a key %x: tampering not detected", i, what, target, sid2, got)
-
-					return v
+					break
 				}
 			}
 
-			// operations that retrieve the key internally detect the alteration too (and so cannot re-seal it)
 			var liveIDs []string
 			for id := range slots {
 				liveIDs = append(liveIDs, id)
@@ -424,35 +415,75 @@ func Run(p Plan) (v hk.Verdict) {
 
 			sort.Strings(liveIDs)
 
-			for _, sid2 := range liveIDs {
-				if onlyTarget && sid2 != target {
+			rejectedAtLoad := false
+
+			// (protobuf unmarshalling into a used object merges: an alteration that only removes something - the tag,
+			// a slot - leaves the genuine storage behind there, which is not tampered with)
+			onlyRemoves := op.Corr == 2 || op.Corr == 8 || len(st.KeysHmacHash) == 0
+
+			for _, tampered := range []*keystorage.KeyStorage{{}, reused} {
+				how := "loaded into a fresh storage"
+				if tampered == reused {
+					if onlyRemoves {
+						continue
+					}
+
+					how = "re-loaded into a storage that had verified the genuine form before"
+				}
+
+				if err := tampered.UnmarshalBinary(cb); err != nil {
+					rejectedAtLoad = true
+
 					continue
 				}
 
-				priv := keys[slots[sid2]].priv
+				for _, sid2 := range liveIDs {
+					if onlyTarget && sid2 != target {
+						continue
+					}
 
-				if err := tampered.AddKeySlot("zz-added", keys[0].pub, sid2, priv); err == nil {
-					v.Failf("step %d (%s, target %s): AddKeySlot authorised by slot %s succeeded on the altered storage: tampering not detected", i, what, target, sid2)
-
-					return v
-				}
-
-				if err := tampered.DeleteKeySlot(sid2, priv); err == nil {
-					v.Failf("step %d (%s, target %s): DeleteKeySlot(%s) succeeded on the altered storage: tampering not detected (and re-sealed)", i, what, target, sid2)
-
-					return v
-				}
-			}
-
-			// never-added / outsider slots must not unlock anything either
-			for _, extra := range []string{"zz-injected", "zz-outsider"} {
-				for ki := range keys {
-					if got, err := tampered.GetMasterKey(extra, keys[ki].priv); err == nil {
-						v.Failf("step %d (%s): injected slot %s returns a key %x", i, what, extra, got)
+					if got, err := tampered.GetMasterKey(sid2, keys[slots[sid2]].priv); err == nil {
+						v.Failf("step %d (%s, target %s; %s): after the alteration slot %s still returns a key %x: tampering not detected", i, what, target, how, sid2, got)
 
 						return v
 					}
 				}
+
+				// operations that retrieve the key internally detect the alteration too (and so cannot re-seal it)
+				for _, sid2 := range liveIDs {
+					if onlyTarget && sid2 != target {
+						continue
+					}
+
+					priv := keys[slots[sid2]].priv
+
+					if err := tampered.AddKeySlot("zz-added", keys[0].pub, sid2, priv); err == nil {
+						v.Failf("step %d (%s, target %s; %s): AddKeySlot authorised by slot %s succeeded on the altered storage: tampering not detected", i, what, target, how, sid2)
+
+						return v
+					}
+
+					if err := tampered.DeleteKeySlot(sid2, priv); err == nil {
+						v.Failf("step %d (%s, target %s; %s): DeleteKeySlot(%s) succeeded on the altered storage: tampering not detected (and re-sealed)", i, what, target, how, sid2)
+
+						return v
+					}
+				}
+
+				// never-added / outsider slots must not unlock anything either
+				for _, extra := range []string{"zz-injected", "zz-outsider"} {
+					for ki := range keys {
+						if got, err := tampered.GetMasterKey(extra, keys[ki].priv); err == nil {
+							v.Failf("step %d (%s; %s): injected slot %s returns a key %x", i, what, how, extra, got)
+
+							return v
+						}
+					}
+				}
+			}
+
+			if rejectedAtLoad {
+				v.Label("tamper-rejected-at-load")
 			}
 
 			v.Label("tamper-detected:" + fmt.Sprint(op.Corr))
